@@ -83,8 +83,10 @@ MANIFEST_ENTRY = {
             "reset) cut into any reads is delivered exactly as sent in both directions of every negotiated connection; "
             "RSV1 sits on the first frame only; doNotCompress travels verbatim. Kept _partial with a negation witness: the "
             "literal 'same parameters on both ends' (false with window_bits/no_context_takeover overrides, U3) and the "
-            "literal parse(render(offer)) = offer (accept_no_context_takeover=False has no wire form). The model shows "
-            "F17 (send refused after compression desynchronises the context).",
+            "literal parse(render(offer)) = offer (accept_no_context_takeover=False has no wire form). With a send limit "
+            "(maxMessagePayloadSize) exactly the messages not refused arrive intact, context takeover or not "
+            "(lossless_with_send_limit; full since the repair 93aa9965 of F17: a send refused after compression "
+            "now drops the compression context).",
     "note": "zlib/bz2/brotli are trusted through H1/H2 (hypotheses, exercised against the real libraries and an independent "
             "zlib peer, not proved). The bzip2/brotli lattices are modelled and tied by correspondence; their theorems are "
             "limited to what the deflate ones share (client rejection, RSV rules, losslessness is stated for the deflate "
@@ -587,7 +589,7 @@ def scenarios(ctx):
                 msgs = [m for m in msgs if m["dir"] == "c2s"]
         out.append({"id": f"r-s{s}c{c}", "offers": [["r", 1, s]], "spol": ["-", "-", f"{c},~"], "cpol": ["-", "-", "~"],
                     "peer": "real", "msgs": msgs, "seg": rng.randrange(1 << 30), "inject": INJECT if (s, c) == (1, 1) else []})
-    # send limit (C16 interplay): refused sends; harmless without context takeover, F17 with it
+    # send limit (C16 interplay): refused sends must not disturb later messages, with or without context takeover (F17, repaired)
     for snct, tag in ((1, "nct"), (0, "takeover")):
         lim = [{"dir": "s2c", "bin": False, "gen": ["comp", 40, 1], "api": "whole", "frag": None, "dnc": False},
                {"dir": "s2c", "bin": True, "gen": ["rand", 400, 2], "api": "whole", "frag": None, "dnc": False},
